@@ -827,9 +827,10 @@ macro_rules! visit_x_tokens {
                 };
                 let obj = p.parsed().clone();
                 let mut rec3 = Rec::new(inp, -1, false);
-                let ok3 = match obj.self_visit(&mut rec3) {
-                    Ok(p3) => p3.remaining().is_empty() && p3.parsed() == p.parsed() && rec3.toks == $rec.toks,
-                    Err(_) => false,
+                let ok3 = match catch_unwind(AssertUnwindSafe(|| obj.self_visit(&mut rec3))) {
+                    Ok(Ok(p3)) => p3.remaining().is_empty() && p3.parsed() == p.parsed() && rec3.toks == $rec.toks,
+                    Ok(Err(_)) => false,
+                    Err(_) => { s.push_str(" x_selfpanic=1"); false }
                 };
                 write!(s, " x_reparse={} x_revisit={} x_selfvisit={} x_lenm={}", ok1 as u8, ok2 as u8, ok3 as u8, Visit::len(p.parsed())).unwrap();
             }
@@ -844,8 +845,11 @@ macro_rules! visit_x_tokens {
                 let mut rd = Rec::new(inp, $brk, false);
                 let direct = <$ty as Visit>::visit(view, &mut rd).map(|_| ());
                 let mut rs = Rec::new(inp, $brk, false);
-                let viaself = obj.self_visit(&mut rs).map(|_| ());
-                write!(s, " x_selfbrk={}", (direct == viaself && rd.toks == rs.toks) as u8).unwrap();
+                // a panic inside self_visit must not take the verdict with it
+                match catch_unwind(AssertUnwindSafe(|| obj.self_visit(&mut rs).map(|_| ()))) {
+                    Ok(viaself) => write!(s, " x_selfbrk={}", (direct == viaself && rd.toks == rs.toks) as u8).unwrap(),
+                    Err(_) => s.push_str(" x_selfbrk=0 x_selfpanic=1"),
+                }
             }
         }
         // allocation count with a visitor that does not allocate itself (same break policy)
